@@ -119,7 +119,11 @@ func (w *ShardWriter) dial(nodeID uint64) (net.Conn, error) {
 		if err != nil {
 			return nil, err
 		}
-		w.pool.setPool(nodeID, p)
+		// Another caller may have created the pool for this node in the meantime:
+		// keep that one and release ours, otherwise its connections are never closed.
+		if cur := w.pool.setPoolIfAbsent(nodeID, p); cur != p {
+			p.Close()
+		}
 	}
 	return w.pool.conn(nodeID)
 }
